@@ -33,12 +33,18 @@ def main():
         if a == "--tier":
             tier = args[i + 1]
     src = f"/tmp/seed_{pid}_out"
+    name = mn  # directory suffix under /verif/seeded (round-2 changes m1/m2 of /tmp/seed2_* are stored as m3/m4)
+    for i, a in enumerate(args):
+        if a == "--src":
+            src = args[i + 1]
+        if a == "--name":
+            name = args[i + 1]
     diff = f"{src}/{mn}.diff"
     demo = f"{src}/demo_{mn}.py"
-    wt = f"/tmp/wt_seed_{pid}_{mn}"
+    wt = f"/tmp/wt_seed_{pid}_{name}"
     sh(f"git -C /repo worktree remove --force {wt}")
     r = sh(f"git -C /repo worktree add -q {wt} HEAD")
-    meta = {"property": pid, "change": mn, "repo_head": sh("git -C /repo log --format=%h -1").stdout.strip()}
+    meta = {"property": pid, "change": name, "repo_head": sh("git -C /repo log --format=%h -1").stdout.strip()}
     try:
         r = sh(f"git -C {wt} apply {diff}")
         meta["applies"] = r.returncode == 0
@@ -69,7 +75,7 @@ def main():
     finally:
         sh(f"git -C /repo worktree remove --force {wt}")
         sh(f"cd {ROOT} && git checkout -q -- evidence; git clean -fdq replays")
-    out = os.path.join(ROOT, "seeded", f"{pid}-{mn}")
+    out = os.path.join(ROOT, "seeded", f"{pid}-{name}")
     os.makedirs(out, exist_ok=True)
     shutil.copy(diff, os.path.join(out, "patch.diff"))
     shutil.copy(demo, os.path.join(out, "demo.py"))
